@@ -244,7 +244,24 @@ func (c *Cluster) opSubmit(s *Step) {
 	case 2:
 		tx = nil
 	}
-	a.node.SimAddTransaction(tx)
+	if a.inproxy != nil && tx != nil {
+		// through the in-process proxy, from a buffer the application reuses for
+		// its next submission: what the node keeps must not alias it
+		if cap(a.txBuf) < len(tx)+8 {
+			a.txBuf = make([]byte, 0, 2*len(tx)+64)
+		}
+		buf := append(a.txBuf[:0], tx...)
+		px := a.inproxy
+		go px.SubmitTx(buf)
+		got := <-px.SubmitCh()
+		a.node.SimAddTransaction(got)
+		for i := range buf {
+			buf[i] = 0xEE // the application moves on
+		}
+		c.stats.probe("submit-through-inmem-proxy")
+	} else {
+		a.node.SimAddTransaction(tx)
+	}
 	c.ledger.submit(tx, a.idx, a.epoch, c.stepNo)
 	a.acceptedTxs = append(a.acceptedTxs, tx)
 }
